@@ -51,7 +51,7 @@ func (lam *Lambda) Call(s *Scope, args List, depth int) (result Object) {
 	ss.Macro = ss.Macro || lam.Macro
 	ss.Block = true
 	if 0 < len(lam.Doc.Name) {
-		ss.Name = Symbol(lam.Doc.Name)
+		ss.Name = Symbol(strings.ToLower(lam.Doc.Name))
 	}
 	mode := reqMode
 	ai := 0
